@@ -24,6 +24,18 @@ type recorder struct {
 	mu      sync.Mutex
 	effects []string
 	lookups []string
+	// what acted, and on which database: every statement that reached the statement executor
+	// (with the default database of its execution options), every batch handed to the points writer
+	execs  []execRec
+	writes []string
+	// runAll: the statement executor double reports success, so that every statement of a
+	// multi-statement query reaches it (otherwise the executor stops after the first)
+	runAll bool
+}
+
+type execRec struct {
+	db   string // ExecutionOptions.Database the statement is executed with
+	stmt influxql.Statement
 }
 
 func (r *recorder) effect(what string) {
@@ -38,8 +50,13 @@ func (r *recorder) lookup(what string) {
 }
 func (r *recorder) reset() {
 	r.mu.Lock()
-	r.effects, r.lookups = nil, nil
+	r.effects, r.lookups, r.execs, r.writes = nil, nil, nil, nil
 	r.mu.Unlock()
+}
+func (r *recorder) acted() (execs []execRec, writes []string) {
+	r.mu.Lock()
+	defer r.mu.Unlock()
+	return append([]execRec(nil), r.execs...), append([]string(nil), r.writes...)
 }
 func (r *recorder) snapshot() (eff, look []string) {
 	r.mu.Lock()
@@ -165,6 +182,9 @@ type recPoints struct{ rec *recorder }
 
 func (p *recPoints) RetryWritePointRows(db, rp string, points []influx.Row) error {
 	p.rec.effect("PointsWriter.RetryWritePointRows")
+	p.rec.mu.Lock()
+	p.rec.writes = append(p.rec.writes, db)
+	p.rec.mu.Unlock()
 	return nil
 }
 
@@ -186,6 +206,13 @@ type recExecutor struct{ rec *recorder }
 
 func (e *recExecutor) ExecuteStatement(stmt influxql.Statement, ctx *query.ExecutionContext, seq int) error {
 	e.rec.effect("StatementExecutor.ExecuteStatement")
+	e.rec.mu.Lock()
+	e.rec.execs = append(e.rec.execs, execRec{db: ctx.ExecutionOptions.Database, stmt: stmt})
+	all := e.rec.runAll
+	e.rec.mu.Unlock()
+	if all {
+		return ctx.Send(&query.Result{}, seq, nil)
+	}
 	return errNotExecuted
 }
 func (e *recExecutor) Statistics(buffer []byte) ([]byte, error) { return buffer, nil }
